@@ -172,6 +172,15 @@ def evaluate_all(kind, ast, tags, rows, table_payload):
         f = ite.convert_predicate(lib)
         res["iteration"] = [bool(f(r)) for r in rows]
         col = sqle.convert_predicate(lib, table_payload.columns_available)
+        # the other public conversion route (what the engine itself uses for WHERE / ON clauses):
+        # a list of terms to be combined with AND
+        terms = sqle.convert_flattened_predicate(lib, table_payload.columns_available)
+        flat_col = sa.and_(sa.true(), *terms)
+        fsel = sa.select(*[table_payload.columns_available[t].label(t.qualified_name) for t in tags], flat_col.label("v__")).select_from(table_payload.from_clause)
+        fgot = {}
+        for r in db.conn.execute(fsel).mappings():
+            fgot[tuple(r[t.qualified_name] for t in tags)] = r["v__"]
+        res["sql_flattened"] = [bool(fgot[tuple(r[t] for t in tags)]) for r in rows]
     sel = sa.select(*[table_payload.columns_available[t].label(t.qualified_name) for t in tags], col.label("v__")).select_from(table_payload.from_clause)
     got = {}
     for r in db.conn.execute(sel).mappings():
@@ -191,7 +200,7 @@ def compare(kind, ast, tags, rows, payload, out, label):
     if res["ast"] != res["interp"]:
         out["violations"].append({"kind": "ORACLE-SUSPECT", "detail": f"references disagree for {label}"})
         return res
-    bad = [s for s in ("iteration", "sql") if res[s] != res["ast"]]
+    bad = [s for s in ("iteration", "sql", "sql_flattened") if s in res and res[s] != res["ast"]]
     if bad:
         out["counters"]["disagreements_checked"] = out["counters"].get("disagreements_checked", 0) + 1
         i = next(i for i in range(len(rows)) if any(res[s][i] != res["ast"][i] for s in bad))
@@ -203,7 +212,7 @@ def compare(kind, ast, tags, rows, payload, out, label):
         out["violations"].append({
             "kind": f"engines_disagree:{'+'.join(bad)}",
             "mech": mech,
-            "detail": f"{label}: at row {rows[i]} direct={res['ast'][i]} iteration={res['iteration'][i]} sql={res['sql'][i]} ({sum(1 for j in range(len(rows)) if res['sql'][j] != res['ast'][j] or res['iteration'][j] != res['ast'][j])} of {len(rows)} rows differ)",
+            "detail": f"{label}: at row {rows[i]} direct={res['ast'][i]} iteration={res['iteration'][i]} sql={res['sql'][i]} sql_flattened={res.get('sql_flattened', [None] * len(rows))[i]} ({sum(1 for j in range(len(rows)) if any(res[s][j] != res['ast'][j] for s in bad))} of {len(rows)} rows differ)",
         })
     return res
 
